@@ -14,3 +14,60 @@ package core
 //@   assert-call ReloadInternalUsers: true
 //@   assert-call ReloadPathConfs: true
 //@   ensures true
+
+// C12: every API edit works on a clone of the running configuration, is validated before it is returned for
+// storing, and a failed edit or a failed validation returns no configuration (the caller stores nothing).
+
+//@ func (p *Core) doAPIConfigPathAdd
+//@   property C12
+//@   safety -all
+//@   assert-call AddPath: conf == resultof(Clone) && name == caller_name
+//@   assert-call Validate: conf == resultof(Clone) && called(AddPath) == 1 && resultof(AddPath) == nil
+//@   assert-call Clone: true
+//@   ensures [edit-or-validation-failure-returns-nothing] result1 != nil ==> result0 == nil
+//@   ensures [success-returns-the-validated-clone] result1 == nil ==> result0 == resultof(Clone) && called(Validate) == 1 && resultof(Validate) == nil && called(AddPath) == 1 && resultof(AddPath) == nil
+
+//@ func (p *Core) doAPIConfigPathReplace
+//@   property C12
+//@   safety -all
+//@   assert-call ReplacePath: conf == resultof(Clone) && name == caller_name
+//@   assert-call Validate: conf == resultof(Clone) && called(ReplacePath) == 1 && resultof(ReplacePath) == nil
+//@   assert-call Clone: true
+//@   ensures [edit-or-validation-failure-returns-nothing] result1 != nil ==> result0 == nil
+//@   ensures [success-returns-the-validated-clone] result1 == nil ==> result0 == resultof(Clone) && called(Validate) == 1 && resultof(Validate) == nil
+
+//@ func (p *Core) doAPIConfigPathPatch
+//@   property C12
+//@   safety -all
+//@   assert-call PatchPath: conf == resultof(Clone) && name == caller_name
+//@   assert-call Validate: conf == resultof(Clone) && called(PatchPath) == 1 && resultof(PatchPath) == nil
+//@   assert-call Clone: true
+//@   ensures [edit-or-validation-failure-returns-nothing] result1 != nil ==> result0 == nil
+//@   ensures [success-returns-the-validated-clone] result1 == nil ==> result0 == resultof(Clone) && called(Validate) == 1 && resultof(Validate) == nil
+
+//@ func (p *Core) doAPIConfigPathDelete
+//@   property C12
+//@   safety -all
+//@   assert-call RemovePath: conf == resultof(Clone) && name == caller_name
+//@   assert-call Validate: conf == resultof(Clone) && called(RemovePath) == 1 && resultof(RemovePath) == nil
+//@   assert-call Clone: true
+//@   ensures [edit-or-validation-failure-returns-nothing] result1 != nil ==> result0 == nil
+//@   ensures [success-returns-the-validated-clone] result1 == nil ==> result0 == resultof(Clone) && called(Validate) == 1 && resultof(Validate) == nil
+
+//@ func (p *Core) doAPIConfigGlobalPatch
+//@   property C12
+//@   safety -all
+//@   assert-call PatchGlobal: conf == resultof(Clone)
+//@   assert-call Validate: conf == resultof(Clone) && called(PatchGlobal) == 1
+//@   assert-call Clone: true
+//@   ensures [validation-failure-returns-nothing] result1 != nil ==> result0 == nil
+//@   ensures [success-returns-the-validated-clone] result1 == nil ==> result0 == resultof(Clone) && called(Validate) == 1 && resultof(Validate) == nil
+
+//@ func (p *Core) doAPIConfigPathDefaultsPatch
+//@   property C12
+//@   safety -all
+//@   assert-call PatchPathDefaults: conf == resultof(Clone)
+//@   assert-call Validate: conf == resultof(Clone) && called(PatchPathDefaults) == 1
+//@   assert-call Clone: true
+//@   ensures [validation-failure-returns-nothing] result1 != nil ==> result0 == nil
+//@   ensures [success-returns-the-validated-clone] result1 == nil ==> result0 == resultof(Clone) && called(Validate) == 1 && resultof(Validate) == nil
